@@ -3,6 +3,7 @@ package main
 // Built-in models of library functions (assumptions, listed in the evidence).
 
 import (
+	"os"
 	"fmt"
 	"go/types"
 	"strings"
@@ -132,6 +133,7 @@ func init() {
 	}
 	externModels["(*math/big.Rat).Add"] = ratBin("+")
 	externModels["(*math/big.Rat).Sub"] = ratBin("-")
+	externModels["(*math/big.Rat).Mul"] = ratBin("*")
 	externModels["(*math/big.Rat).Set"] = func(ex *Exec, fr *Frame, callee *ssa.Function, args []Val, st *State, k CallCont) {
 		x := ex.ratOperand(fr, st, args[1])
 		ex.ratAssign(fr, st, args[0], x)
@@ -278,9 +280,36 @@ func (ex *Exec) bigOperand(fr *Frame, st *State, v Val) Term {
 }
 
 func (ex *Exec) bigAssign(fr *Frame, st *State, recv Val, v Term) {
+	if call, ok := ex.cur.(ssa.CallInstruction); ok && len(call.Common().Args) > 0 && call.Common().StaticCallee() != nil && ex.vc.collecting == 0 {
+		if where, esc := ex.vc.prog.escapedBefore(ex.cur, call.Common().Args[0]); esc {
+			if tc := ex.topContract(); tc != nil && len(ex.vc.curProps) == 0 {
+				ex.vc.curProps = append(append([]string{}, tc.Props...), tc.AlsoFor...)
+			}
+			ex.obligationFull(fr, st, "frame", "in-place mutation of a big.Int after a pointer to it was stored or handed out at "+shortFile(where)+" (the holder's value changes behind its back)", "false", false, fmt.Sprintf("bigint-escaped@%d", ex.siteOrdinal(ex.cur)), true)
+			ex.vc.curProps = nil
+		}
+	}
 	if recv.K == VPtr {
 		ex.store(st, recv.P, tv(v))
 		return
+	}
+	if os.Getenv("GOVC_DEBUG_BIG") != "" {
+		call, ok := ex.cur.(ssa.CallInstruction)
+		fmt.Fprintf(os.Stderr, "bigAssign at %s recvK=%d cur=%T ok=%v\n", ex.where(), recv.K, ex.cur, ok)
+		if ok {
+			fmt.Fprintf(os.Stderr, "   static=%v arg0=%v owned=%v\n", call.Common().StaticCallee(), call.Common().Args, ex.vc.prog.ownedBig(call.Common().Args[0]))
+		}
+	}
+	if recv.K == VTerm {
+		// not allocated on this path: it must at least be this function's own object (bigown.go)
+		if call, ok := ex.cur.(ssa.CallInstruction); ok && len(call.Common().Args) > 0 && call.Common().StaticCallee() != nil && !ex.vc.prog.ownedBig(call.Common().Args[0]) {
+			if tc := ex.topContract(); tc != nil && len(ex.vc.curProps) == 0 {
+				// counts for every property the function is verified for (also those it only contributes tagged clauses to)
+				ex.vc.curProps = append(append([]string{}, tc.Props...), tc.AlsoFor...)
+				defer func() { ex.vc.curProps = nil }()
+			}
+			ex.obligationFull(fr, st, "frame", "in-place mutation of a big.Int this function did not allocate (it may be shared: a constant of a cached program, an id already handed out)", "false", false, fmt.Sprintf("bigint@%d", ex.siteOrdinal(ex.cur)), true)
+		}
 	}
 	if recv.K == VTerm && recv.Prov != nil {
 		// the big.Int behind a pointer loaded from a field or local: the new value is written
@@ -310,6 +339,14 @@ func (ex *Exec) ratOperand(fr *Frame, st *State, v Val) Term {
 func (ex *Exec) ratAssign(fr *Frame, st *State, recv Val, v Term) {
 	if recv.K == VPtr {
 		ex.store(st, recv.P, tv(v))
+		return
+	}
+	if recv.K == VTerm && recv.Prov != nil {
+		// the big.Rat behind a pointer held in a local or field: same rule as for big.Int (bigown.go)
+		if call, ok := ex.cur.(ssa.CallInstruction); ok && len(call.Common().Args) > 0 && call.Common().StaticCallee() != nil && !ex.vc.prog.ownedBig(call.Common().Args[0]) {
+			ex.obligationFull(fr, st, "frame", "in-place mutation of a big.Rat this function did not allocate", "false", false, fmt.Sprintf("bigrat@%d", ex.siteOrdinal(ex.cur)), true)
+		}
+		ex.store(st, recv.Prov, tv(Term{app("or_some", v.S), SOptRat}))
 		return
 	}
 	ex.vc.fatalf("frame: in-place mutation of a big.Rat that was not allocated in this function (%s)", ex.where())
